@@ -132,6 +132,10 @@ int32_t jls_buf_string_save(struct jls_buf_s * self, const char * cstr_in, char 
     }
     size_t sz = strlen(cstr_in) + 1;
     struct jls_buf_strings_s * s = self->strings_tail;
+    if (sz > (sizeof(s->buffer) - 1)) {
+        JLS_LOGE("string too long");
+        return JLS_ERROR_TOO_BIG;
+    }
     char * buf_end = s->buffer + sizeof(s->buffer) - 1;
     if ((size_t) (buf_end - s->cur) < sz) {
         ROE(strings_alloc(self));
@@ -283,11 +287,17 @@ int32_t jls_buf_rd_str(struct jls_buf_s * self, const char ** value) {
         if (s->cur >= buf_end) {
             ROE(strings_alloc(self));
             // copy over partial.
-            while (str <= buf_end) {
+            if ((size_t) (s->cur - str) >= (sizeof(s->buffer) - 1)) {
+                JLS_LOGE("string too long");
+                *value = NULL;
+                return JLS_ERROR_TOO_BIG;
+            }
+            while (str < s->cur) {
                 *self->strings_tail->cur++ = *str++;
             }
             s = self->strings_tail;
             str = self->strings_tail->buffer;
+            buf_end = s->buffer + sizeof(s->buffer) - 1;
         }
 
         ch = (char) *self->cur++;
